@@ -154,6 +154,7 @@ class Engine:
         self.notes = []
         self.heap_log = []        # (op, obj, detail) for frame checks
         self.loop_guard = None
+        self.inner_pending = None
         self._loop_rng = {}
         # solver answers of the run this one was forked from: a child run repeats its parent's queries up to the
         # fork point (execution is deterministic), so those answers are replayed instead of recomputed
@@ -492,6 +493,11 @@ class Engine:
         if isinstance(f, (FuncVal, Wrapped)):
             qn = f.qualname
             c = self.contracts.get(qn)
+            if f is self.inner_pending:
+                # the function under verification is a decorated one (e.g. @prune_pending): its wrapper has just
+                # called the original function -- that body belongs to the unit and is executed, once
+                self.inner_pending = None
+                c = None
             if c is not None and c.callee and (self.depth > 0 or qn != self.unit) and qn not in self.inline:
                 return c.apply(self, f, list(args), kwargs)
         if isinstance(f, Wrapped):
